@@ -1,5 +1,6 @@
 """C20 - every call has exactly one outcome and the summary adds up (counters part)."""
 from runner import Prop
+import common
 from common import hx, unhx
 import gen as G
 
@@ -193,17 +194,17 @@ class C20(Prop):
                 oc = o["outcome"]
                 errs, logs = int(o["errors"]), ([] if o["logs"] == "-" else o["logs"].split(","))
                 if oc == "warned" or oc == "nocall":
-                    if errs or [l for l in logs if l != "warning"]:
+                    if errs or [l for l in logs if l not in ("warning", "unknown")]:
                         fails.append({"msg": "obs %d: no-value call signalled %s/%s" % (idx, errs, logs)})
                     continue
                 shape = {"passed": (0, []), "added": (0, ["added"]), "updated": (0, ["updated"])}.get(oc, (1, []))
-                if (errs, logs) != shape or oc.startswith("multi") or oc == "nocount":
+                if errs != shape[0] or not common.logs_agree(",".join(logs) or "-", ",".join(shape[1]) or "-") or oc.startswith("multi") or oc == "nocount":
                     fails.append({"msg": "obs %d: outcome %s signalled as errors=%d logs=%s" % (idx, oc, errs, logs)})
                 if errs:
                     tally["erred"] += errs
-                elif logs == ["added"]:
+                elif logs == ["added"] or (logs == ["unknown"] and oc == "added"):
                     tally["added"] += 1
-                elif logs == ["updated"]:
+                elif logs == ["updated"] or (logs == ["unknown"] and oc == "updated"):
                     tally["updated"] += 1
                 elif not logs:
                     tally["passed"] += 1
